@@ -95,6 +95,11 @@ Matches(r) ==
   /\ \A tag \in Tags : FilterEmpty(fin[tag]) \/ Selected(fin[tag], r, tag)
   /\ \A tag \in Tags : ~Selected(fnot[tag], r, tag)
 
+(* Rows the property speaks about: a raw tag holds numbers, rows with a string value in the column
+   of a raw tag do not exist in the storage; whether the code consults that column or not is not
+   fixed by the property. *)
+RowOK(r) == \A tag \in Tags : Raw(tag) => r.s[tag] = ""
+
 (* Precondition kept by the only producer of regexes (promql/engine.go: the values added
    next to Re2 are those the regex matches): the regex covers every string value. *)
 Covered(f) == IF f.re = None THEN TRUE ELSE \A i \in DOMAIN f.vals : HasValue(f.vals[i]) /\ ~IsEmpty(f.vals[i]) => f.vals[i].s \in ReSet[f.re]
@@ -165,7 +170,7 @@ Where == LET conds == <<NBase>> \o CondsOf(fin, TRUE) \o CondsOf(fnot, FALSE)
 
 ---------------------------------------------------------------------------
 (* mechanism implies property *)
-WhereSelectsExactly == LET w == Where IN \A r \in Rows : Eval(w, r) = Matches(r)
+WhereSelectsExactly == LET w == Where IN \A r \in Rows : RowOK(r) => Eval(w, r) = Matches(r)
 
 (* the two polarities are complements of each other, tag by tag (De Morgan) *)
 PolaritiesComplement ==
@@ -227,7 +232,7 @@ RowIdx(r) ==
                    ELSE Acc(i + 1, (a * Cardinality(Ints[TagSeq[i]]) + IntIdx[r.t[TagSeq[i]]]) * Cardinality(Strs[TagSeq[i]]) + StrIdx[r.s[TagSeq[i]]])
   IN Acc(1, IF r.base THEN 1 ELSE 0)
 
-Want == {RowIdx(r) : r \in {x \in Rows : Matches(x)}}
+Want == {RowIdx(r) : r \in {x \in Rows : RowOK(x) /\ Matches(x)}}
 
 Export ==
   LET n == Len(hist')
